@@ -86,7 +86,8 @@ class ActionContext(abc.ABC):
         var_processor = VariableSetProcessor({}, self.var_cache, self.collection_config)
 
         try:
-            result = self.trigger_context.evaluate_expression(watch)
+            # raises when the expression fails: that is an error result (below), not a value of an exception type
+            result = self.trigger_context.evaluate(watch)
             variable_id, log_str = var_processor.process_variable(watch, result)
             if variable_id.vid is None:
                 # the variable budget ran out before the value was recorded: say so, rather than refer to nothing
